@@ -60,6 +60,21 @@ var c03Ext = []c03Ty{
 	{fo: "[]U0", gt: "[]U0", foVal: "[X0 4; Y0]", goVal: "[]U0{New_U0_X0(4), New_U0_Y0}", show: "fmt.Sprint(%s)", want: "[(X0: 4) (Y0)]"},
 }
 
+// c03Self: payload types that mention the union being declared (%SELF%): directly in a slice, and only as a
+// type argument of an external generic type declared in package_info (a forward reference inside one type
+// statement that is resolved through the type arguments)
+var c03Self = []c03Ty{
+	{fo: "[]%SELF%", gt: "[]%SELF%", foVal: "slice.New<%SELF%> ()", goVal: "[]%SELF%{}", show: "fmt.Sprint(len(%s))", want: "0"},
+	{fo: "extp.Box<%SELF%>", gt: "extp.Box[%SELF%]", foVal: "extp.MkBox<%SELF%> ()", goVal: "extp.MkBox[%SELF%]()", show: "fmt.Sprint(len(%s.Vs))", want: "0"},
+	{fo: "int*extp.Box<%SELF%>", gt: "frt.Tuple2[int, extp.Box[%SELF%]]", foVal: "(1, extp.MkBox<%SELF%> ())", goVal: "frt.NewTuple2(1, extp.MkBox[%SELF%]())", show: "fmt.Sprint(%s.E0, len(%s.E1.Vs))", want: "1 0"},
+}
+
+func (t c03Ty) self(name string) c03Ty {
+	r := func(x string) string { return strings.ReplaceAll(x, "%SELF%", name) }
+	t.fo, t.gt, t.foVal, t.goVal = r(t.fo), r(t.gt), r(t.foVal), r(t.goVal)
+	return t
+}
+
 // c03Pick: entry p of the base menu (first `menu` entries) followed, in the first position, by the extension
 func c03Pick(c *explore.Chooser, menu int, first bool) c03Ty {
 	n := menu
@@ -89,6 +104,8 @@ import "vprog/extp"
 
 package_info extp =
   let Keep: ()->()
+  type Box<T>
+  let MkBox<T>: ()->Box<T>
 
 type R0 = {A0: int}
 
@@ -201,10 +218,18 @@ func c03UnionDriver(maxCases int) func(c *explore.Chooser, k int) *c03Case {
 				menu = 12
 			}
 			cc := cas{name: fmt.Sprintf("C%d_%d", i, k)}
-			if c.Choose(2) == 1 { // 0 = no payload
+			switch c.Choose(3) { // 0 = no payload
+			case 1:
 				t := c03Pick(c, menu, i == 0)
 				cc.t = &t
 				usesT = usesT || t.gen
+			case 2:
+				// a payload that mentions the union itself (non-generic unions, first case)
+				if generic || i != 0 {
+					c.Skip("self-referential payloads only in the first case of a non-generic union")
+				}
+				t := c03Self[c.Choose(len(c03Self))].self(fmt.Sprintf("Uni%d", k))
+				cc.t = &t
 			}
 			cases = append(cases, cc)
 		}
@@ -653,8 +678,8 @@ func c03RunBatch(c *core.Ctx, sc *impl.Scratch, fc string, part []*c03Case, base
 	}
 	prelude := c03Prelude
 	env := &gobatch.Env{Sc: sc, FC: fc, FCArgs: []string{sc.PkgAllFoi()}, Prelude: prelude,
-		GoMainHeader: "package main\n\nimport (\n\t\"fmt\"\n\n\t\"github.com/karino2/folang/pkg/frt\"\n)\n\nvar _ = frt.OpNot\nvar _ = fmt.Sprint\n\n",
-		GoPkgHeader:  map[string]string{"extp": "package extp\n\nimport \"fmt\"\n\nvar _ = fmt.Sprint\n\nfunc Keep() {}\n\n"}}
+		GoMainHeader: "package main\n\nimport (\n\t\"fmt\"\n\n\t\"github.com/karino2/folang/pkg/frt\"\n\t\"vprog/extp\"\n)\n\nvar _ = frt.OpNot\nvar _ = fmt.Sprint\nvar _ = extp.Keep\n\n",
+		GoPkgHeader:  map[string]string{"extp": "package extp\n\nimport \"fmt\"\n\nvar _ = fmt.Sprint\n\nfunc Keep() {}\n\ntype Box[T any] struct{ Vs []T }\n\nfunc MkBox[T any]() Box[T] { return Box[T]{} }\n\n"}}
 	res := env.Run(progs)
 	for i, r := range res {
 		cs := part[i]
